@@ -29,19 +29,36 @@ def gate_obj(spec):
 _FIELDS = {}
 
 
+USED_MISMATCH = {}       # spec key -> (model's used set, implementation's used_qubits or exception)
+
+
 def fields_of(spec):
-    """(name, sorted targets, sorted controls) as the real Instruction class presents them"""
+    """(name, sorted targets, sorted controls) as the real Instruction class presents them.  The model derives
+    `used` = targets | controls from them; a different `used_qubits` on the real object (or an exception of
+    `Instruction()`) is remembered in USED_MISMATCH and reported as a disagreement by the callers."""
     key = (spec[0], tuple(spec[1]), tuple(spec[2]))
     f = _FIELDS.get(key)
     if f is None:
         _, Instruction, _, _, _ = sc._mods()
-        ins = Instruction(gate_obj(spec))
-        f = sc.ins_fields(ins)
-        used = set(f[1]) | set(f[2])
-        if used != set(ins.used_qubits):
-            raise AssertionError("used_qubits is not targets|controls")
+        try:
+            ins = Instruction(gate_obj(spec))
+            f = sc.ins_fields(ins)
+            used = set(f[1]) | set(f[2])
+            if used != set(ins.used_qubits):
+                USED_MISMATCH[key] = (sorted(used), sorted(ins.used_qubits))
+        except Exception as e:          # the constructor is part of the code under test
+            f = (spec[0], sorted(spec[1]), sorted(spec[2]))
+            USED_MISMATCH[key] = (sorted(set(f[1]) | set(f[2])), "Instruction() raised " + type(e).__name__)
         _FIELDS[key] = f
     return f
+
+
+def used_mismatch(specs):
+    for s in specs:
+        m = USED_MISMATCH.get((s[0], tuple(s[1]), tuple(s[2])))
+        if m:
+            return m
+    return None
 
 
 def specs_from(seq):
@@ -165,6 +182,9 @@ class C05(PropertyCheck):
                            f"shuffle={int(bool(shuffle or repeat))}"])
             w = {"N": N, "gates": specs, "method": method, "perm": perm, "shuf": shuf, "repeat": repeat,
                  "scope": "covered"}
+            mm = used_mismatch(specs)
+            if mm:
+                res.disagree(inp, mm[0], mm[1], "used_qubits of an instruction", w)
             if line is None:
                 self._compare_repeat(ctx, res, inp, w, specs, method, perm, repeat, st, idx, shuf)
                 continue
